@@ -459,6 +459,11 @@ func (s *AbsfsNFS) WriteWithContext(ctx context.Context, node *NFSNode, offset i
 		data = data[:tuning.TransferSize]
 	}
 
+	// Enforce the configured maximum file size
+	if policy.MaxFileSize > 0 && (offset > policy.MaxFileSize || int64(len(data)) > policy.MaxFileSize-offset) {
+		return 0, fmt.Errorf("write: %s would exceed the maximum file size: %w", node.path, syscall.EFBIG)
+	}
+
 	// Standard write path
 	f, err := s.fs.OpenFile(node.path, os.O_WRONLY, 0)
 	if err != nil {
